@@ -10,11 +10,12 @@ namespace Jinns.Driver
     parameters, histories). -/
 def handleC18 (j : Json) : Except String Json := do
   let ld ← load j
+  let ref := ld.ref ()
   let rej := ld.ob.error.isSome
-  let holds := match Jinns.Holds.holdsC18 ld.ref rej ld.ob.obs with
+  let holds := match Jinns.Holds.holdsC18 ref rej ld.ob.obs with
     | some c => some c
-    | none => Jinns.Holds.holdsC07 ld.ref rej ld.ob.obs
-  let k := Jinns.Holds.SolveAux.firstFault ld.ref
+    | none => Jinns.Holds.holdsC07 ref rej ld.ob.obs
+  let k := Jinns.Holds.SolveAux.firstFault ref
   let r := answer ld ["iters", "batches", "params", "loss_hist", "term_hist", "tracked"] holds
   pure (r.mergeObj (Json.mkObj [
     ("fault_at", match k with | none => Json.null | some k => Json.num (k : Nat)),
